@@ -578,7 +578,8 @@ func genC12Act(r *rand.Rand, depth, maxDepth, maxFan int, name string, order int
 		n := r.Intn(maxFan + 1)
 		orders := r.Perm(7)
 		for i := 0; i < n; i++ {
-			a.Children = append(a.Children, genC12Act(r, depth+1, maxDepth, maxFan, fmt.Sprintf("%s_%c", name, 'a'+i), orders[i]-3))
+			// order values of different widths and signs: -12, -3, -2, 0, 5, 10, 100 (compared as numbers)
+			a.Children = append(a.Children, genC12Act(r, depth+1, maxDepth, maxFan, fmt.Sprintf("%s_%c", name, 'a'+i), []int{-12, -3, -2, 0, 5, 10, 100}[orders[i]]))
 		}
 	}
 	return a
